@@ -25,6 +25,21 @@ PROPS = {
     ),
 }
 
+PROPS["C20"] = dict(
+    components=[dict(name="ve", shrink_lists=False)],
+    rule=("seeded random trees (depth <= 3 quick / 5 thorough, fan-out <= 3, 0-3 fields per map, 0-2 messages, nil vs empty maps, all three "
+          "constructors, field/child names from a tiny alphabet with dotted names so that flat keys collide across routes) x 1-6 reads each; "
+          "pairs for AddErrorToValidation over nil / typed-nil / pointer error / value error / ValidationError / wrapped ValidationError incl. a "
+          "biased stream with colliding child names. distinct_nontrivial = distinct cases (hashed) with children and >= 2 reads, or an add pair."),
+    level_text=("Proof: flat map = supplied messages (multiset of (dotted key, message), errors and warnings apart), Error() renders each once, reads leave "
+                "the receiver unchanged for every read sequence, AddErrorToValidation contains every message of both arguments — Lean theorems over all "
+                "trees (nested inductive, any depth/fan-out, nil or non-nil maps); tied to validationError.go by differential runs on random trees."),
+    level_note=("Trusted: Lean kernel; the hand model of validationError.go (Go map = association list with unique keys; nil map = none; iteration order "
+                "abstracted by comparing canonical forms); the correspondence run (random trees; coverage printed)."),
+    trusted_base=TB_COMMON + ["errors.As / fmt.Errorf(%w) unwrapping and reflect nil-ness as modelled by the Err sum (nil | plain | ve | wrapped)"],
+    assumptions=["children maps hold non-nil *ValidationError values", "map iteration order is abstracted: results are compared as sorted canonical forms / multisets"],
+)
+
 HOOK_COMMITS = []
 
 _ALL = ["C%02d" % i for i in range(1, 21)]
